@@ -1,7 +1,10 @@
 //! rc5: instantiations of RC5<W, R, B> against Rivest's RC5-w/r/b (bcref::rc5), C10.
 //! The list is the one of /repo/rc5/tests plus the boundary instantiations of /verif/contracts/rc5 (rounds 0, 1, 255;
-//! key lengths 1, 3, 7, 9, 17, 255 that are not multiples of the word size).  NOT included, known and reported:
-//! key length 0 (`RC5<_, _, U0>::new` panics) and the key-length field of AlgorithmName/Debug (prints the rounds twice).
+//! key lengths 1, 3, 7, 9, 17, 255 that are not multiples of the word size).  NOT included, known and reported
+//! (repaired in /repo by a5ebc89 and fc9ba1e, but a copy under test may predate them): key length 0
+//! (`RC5<_, _, U0>::new` panicked) and the key-length field of AlgorithmName/Debug (printed the rounds twice).
+//! To include them: add `rc5!(D32_12_0, u32, U12, U0, "RC5<u32,U12,U0>", 32, 0usize, 26, 1, "12");` + its `visit`,
+//! and append the key length to the `alg [...]` list of the macro.
 use crate::generic::*;
 use crate::util::*;
 use bcref::rc5 as r;
